@@ -36,7 +36,7 @@ func solverArgs(kind string, timeoutMs int) []string {
 	case "z3-new":
 		return []string{"z3-new", "-in", "-t:" + strconv.Itoa(timeoutMs)}
 	case "cvc5":
-		return []string{"cvc5", "--incremental", "--lang=smt2", "--tlimit-per=" + strconv.Itoa(timeoutMs)}
+		return []string{"cvc5", "--incremental", "--produce-models", "--lang=smt2", "--tlimit-per=" + strconv.Itoa(timeoutMs)}
 	}
 	panic("unknown solver " + kind)
 }
